@@ -236,7 +236,11 @@ int main(int argc, char** argv) {
 
     for (z = 1; z < argc; z++) {
         if (ParUnprocessed[z]) {
-            DirScan(argv[z], ProcessFile);
+            String SrcName;
+
+            strmaxcpy(SrcName, argv[z], STRINGSIZE);
+            AddSuffix(SrcName, STRINGSIZE, getmessage(Num_Suffix));
+            DirScan(SrcName, ProcessFile);
         }
     }
 
